@@ -828,7 +828,7 @@ func runC15(env *core.Env) {
 		}
 	}
 	// (b) numeric literals
-	nums := []string{"0", "1", "7", "10", "2147483647", "0001", "000", "1.0", "1.00", "0.5", "00.50", "3.14159", "1.50", "100.000", "0.000000000000000000000000000001", "123456789012345678901234567890.123456789", "1000000000000000000000000000000.0", "2147483648.0", "0.10", "12.000000000000000000000000000000"}
+	nums := []string{"010", "08", "09", "0777", "00010", "010.0", "08.5", "0", "1", "7", "10", "2147483647", "0001", "000", "1.0", "1.00", "0.5", "00.50", "3.14159", "1.50", "100.000", "0.000000000000000000000000000001", "123456789012345678901234567890.123456789", "1000000000000000000000000000000.0", "2147483648.0", "0.10", "12.000000000000000000000000000000"}
 	for i := 0; i < env.Size(100, 5000); i++ {
 		id, fd := 1+rng.Intn(9), rng.Intn(31)
 		var b strings.Builder
